@@ -16,7 +16,7 @@ THEOREMS = [
     "MM.compExch_rows_single",
     "MM.compMembers_trial",
     "MM.gc_mixed_history_x",
-    "MM.counter_drifts_after_composite_insertion",
+    "MM.counter_follows_after_composite_insertion",
     "MM.shared_labelling_needs_equal_defaults",
     "MM.labels_aligned_after_accept",
     "MM.inserted_particle_one_label",
@@ -29,8 +29,11 @@ THEOREMS = [
     "MM.fixedOK_delete",
     "MM.ginv_trial_pos",
     "MM.gc_mixed_history",
-    "MM.composite_insertion_shares_label",
+    "MM.composite_insertion_distinct_labels",
+    "MM.composite_insertion_shares_label_pinned",
     "MM.notifyRefs_spec",
+    "MM.notifyParts_spec",
+    "MM.notifyParts_aligned",
     "MM.onAtomsChanged_length",
     "MM.exchCall_outcome",
 ]
@@ -90,8 +93,11 @@ def bookkeeping_violations(case, obs):
         notif = [n for n in obs["extra"][k]["notif"] if n and n[0] != "cell"]
         added = [i for n in notif for i in n[0]]
         removed = [i for n in notif for i in n[1]]
-        if len(notif) > 1:
-            out.append((f"notify:more-than-once:{ts}", f"trial {k}: {len(notif)} notifications for one accepted trial"))
+        # one notification per accepted trial — one per inserted PARTICLE when a composite inserted several (each names the
+        # atoms of one particle: that is what lets a move give distinct particles distinct labels)
+        if len(notif) > max(1, a["ctx"]["nexch"] - b["ctx"]["nexch"]):
+            out.append((f"notify:more-than-once:{ts}", f"trial {k}: {len(notif)} notifications for one accepted trial "
+                        f"that inserted {a['ctx']['nexch'] - b['ctx']['nexch']} particle(s)"))
         nb = len(b["arrays"]["numbers"][1])
         if natoms != nb + len(added) - len(set(removed)):
             out.append((f"notify:indices-do-not-explain-atom-count:{ts}", f"trial {k}: {nb} -> {natoms}, added {added}, removed {removed}"))
@@ -137,9 +143,12 @@ def bookkeeping_violations(case, obs):
                 # positions of the added rows after the removals of the same trial
                 shift = lambda i: i - sum(1 for x in set(removed) if x < i)  # noqa: E731
                 chunk_labels = []
+                # particles of unequal size (a larger species pre-selected on a member of a composite): where one particle ends
+                # and the next begins is not known here; only the NUMBER of particles is (from the scripted verdicts)
+                uneven = any(p[1] == "B" for p in tr.get("presel", [])) and ent["tree"][0] == "X"
                 for ch in chunks:
                     ls = {lab[shift(i)] for i in ch if i not in removed}
-                    if len(ls) > 1:
+                    if len(ls) > 1 and not uneven:
                         out.append((f"labels:particle-split:{ts}", f"trial {k}: atoms {ch} of one inserted particle got labels {ls} in move {r}"))
                     if ls:
                         chunk_labels.append(next(iter(ls)))
@@ -151,9 +160,11 @@ def bookkeeping_violations(case, obs):
                         old = {x for x in b["labels"][r] if x >= 0}
                         if L < 0 or L in old:
                             out.append((f"labels:auto-label-not-fresh:{ts}", f"trial {k}: move {r} gave label {L}, in use: {sorted(old)}"))
-                if dflt is None and len(set(chunk_labels)) < len(chunk_labels):
+                new_labels = [lab[shift(i)] for i in tail if i not in removed]
+                if dflt is None and not (set(removed) & set(tail)) and len(set(new_labels)) != n_ins:
                     out.append((f"labels:composite-insertion-shared-label:{ts}",
-                                f"trial {k}: {len(chunk_labels)} inserted particles share label(s) {chunk_labels} in move {r}"))
+                                f"trial {k}: {n_ins} inserted particle(s) carry {len(set(new_labels))} distinct label(s) "
+                                f"{new_labels} in move {r}"))
     return out
 
 
